@@ -1872,7 +1872,52 @@ impl<'a> Gen<'a> {
         foreign: &[(Key, PPE)],
     ) -> String {
         let np = paths.len();
-        match self.rng.below(14) {
+        match self.rng.below(16) {
+            14 | 15 if np > 0 => {
+                // the terminal's position and its depth edited TOGETHER, siblings untouched: bits of an
+                // existing key (or random bits) put in front of / cut from the front of the position, or
+                // appended to / cut from its end, and the depth moved by the same amount
+                let i = self.rng.below(np as u64) as usize;
+                let k = self.rng.range(1, 6) as usize;
+                let donor = self.some_key_of(ctx).unwrap_or_else(|| self.rng.key());
+                let mut bits = paths[i].0.path().0.clone();
+                let d = paths[i].1;
+                let how = self.rng.below(4);
+                match how {
+                    0 => {
+                        let mut q: Vec<bool> = (0..k).map(|j| get_bit(&donor, j)).collect();
+                        q.extend(bits.iter().copied());
+                        q.truncate(256);
+                        bits = q;
+                        paths[i].1 = d + k;
+                    }
+                    1 => {
+                        let cut = k.min(bits.len());
+                        bits = bits[cut..].to_vec();
+                        paths[i].1 = d.saturating_sub(cut);
+                    }
+                    2 => {
+                        for j in 0..k {
+                            if bits.len() < 256 {
+                                bits.push(get_bit(&donor, bits.len().min(255)) ^ (j == 0));
+                            }
+                        }
+                        paths[i].1 = d + k;
+                    }
+                    _ => {
+                        let cut = k.min(bits.len());
+                        bits.truncate(bits.len() - cut);
+                        paths[i].1 = d.saturating_sub(cut);
+                    }
+                }
+                if let TermE::Term(_) = paths[i].0 {
+                    paths[i].0 = TermE::Term(KeyBits(bits));
+                } else if how == 0 || how == 2 {
+                    // a leaf terminal keeps its key; only the claimed depth moves with it
+                }
+                paths.sort_by(|a, b| a.0.path().0.cmp(&b.0.path().0));
+                "terminal-position-and-depth-moved-together".into()
+            }
             0..=3 => self.mutate_sibs(ctx, sibs, lookups).into(),
             4 | 5 if np > 0 => {
                 let i = self.rng.below(np as u64) as usize;
@@ -2251,7 +2296,16 @@ fn case_c08(ctx: &mut Ctx, g: &mut Gen) {
                 2 if ctx.root_id[1] > 0 && fam.contains("cross") => Some(NodeE::B(ctx.root_id[1])),
                 _ => Some(root.clone()),
             };
-            let q = multi_queries(g, ctx, &proofs, p.len());
+            let mut q = multi_queries(g, ctx, &proofs, p.len());
+            // a mutated proof is also asked about keys that ARE in S (their absence must never be
+            // confirmed) and about wrong values of them
+            for _ in 0..10 {
+                if let Some(k) = g.some_key_of(ctx) {
+                    let v = ctx.kv[0][&k];
+                    q.push(MQuery::N(k));
+                    q.push(MQuery::V(k, v + 1));
+                }
+            }
             let mut ups: Vec<Vec<OpE>> = (0..2).map(|_| g.write_set(&proofs)).collect();
             if g.rng.chance(1, 3) {
                 let f = g.spoil_ops(ctx, &mut ups[0]);
